@@ -6,6 +6,13 @@ behind a full socket or exhausted H2 windows with the backend gone, or a slow ba
 Trace_Handover.tla rejects a response that is cut, or short but clean, inside the graceful deadline. The
 deviation QuiescedBeforeFlushed is the self-test of that part of P_C10b.)
 
+(Intermediate stages, added after the seeded defect C10-22: an exchange has more stages than "request, then
+response" - body withheld until 100 Continue, 103 Early Hints before the final response, upgrade handshake,
+final response overtaking the upload, a second request pipelined behind the one in flight. Handover.tla has them
+as slot stages (alphabet "flow", action Backend_Interim); drive_handover parks a client in each of them with a
+backend that sends its next message only when told to, several shutdown passes after the stop; the deviation
+ClosedAfterInterim is the self-test.)
+
 Spec: spec/Handover.tla (protocol), spec/ScmManifest.tla (size arithmetic of the fd hand-off message),
 spec/HandoverCodec.tla (generator/oracle of listener sets), spec/Trace_Handover.tla (trace validation).
 
